@@ -130,12 +130,18 @@ func famC13(r *Run) {
 	for _, c := range loadCompliance() {
 		exprs = append(exprs, c.Expr)
 	}
-	for i := 0; i < r.n(300, 5000); i++ {
+	// expressions that fail in the middle of a token (whatever a lexer or parser keeps
+	// from a failed call must not leak into the next one), and ones that show it
+	exprs = append(exprs, "'abc\\'def", "'a\\'", "'x'", "'\\'y\\''", "\"abc", "`[1,", "`1`", "\"k\"", "foo['a\\'b", "[?a=='x\\'", "'p' | 'q\\'r'", "a.'b'")
+	for i := 0; i < r.n(400, 6000); i++ {
 		p := jmespath.NewParser()
 		n := 2 + r.rng.Intn(8)
 		var hist []string
 		for k := 0; k < n; k++ {
 			e := exprs[r.rng.Intn(len(exprs))]
+			if r.rng.Intn(4) == 0 {
+				e = exprs[len(exprs)-1-r.rng.Intn(12)]
+			}
 			if r.rng.Intn(3) == 0 {
 				e = r.mutate(e)
 			}
@@ -311,6 +317,32 @@ func rawOrLit(s string) string {
 // ---- C15 ----
 func famC15(r *Run) {
 	g := &Gen{rng: r.rng, feat: Features{Proj: true, Logic: true, Funcs: true, BadCalls: true, Paren: true, OrderFree: true}}
+	// targeted: the value a step hands on must stay what it was while the next step runs
+	{
+		var d interface{}
+		json.Unmarshal([]byte(`{"a":"x","b":"y","n":[3,1,2],"o":{"k":1},"s":["q","p"],"e":[],"z":null}`), &d)
+		as := []string{"to_array(a)", "to_array(b)", "to_array(o)", "[a, b]", "sort(s)", "reverse(s)", "map(&@, s)", "to_array(n[0])",
+			"not_null(z, a)", "merge(o, o)", "keys(o)", "s[?@ == 'q']", "z", "e", "to_string(a)"}
+		bs := []string{"join(',', @)", "[to_array('w'), @]", "[@, to_array(`1`)]", "length(@)", "@[0]", "to_array(@)", "reverse(@)",
+			"sort_by(@, &@)", "map(&to_array(@), @)", "[join('-', @), @]", "type(@)", "not_null(@[1], @[0])", "contains(@, 'x')",
+			"'lit'", "@ == `null`", "max_by(@, &@)"}
+		for _, ta := range as {
+			for _, tb := range bs {
+				whole := ta + " | " + tb
+				r.mark("pipe-targeted", whole, d)
+				ow := observeSearch(whole, deepCopy(d))
+				oa := observeSearch(ta, deepCopy(d))
+				want := oa
+				if oa.Kind == "val" {
+					want = observeSearch(tb, oa.Value)
+				}
+				if canon(ow, false) != canon(want, false) {
+					r.violate("pipe-targeted", whole, d, "Search('A | B', d) differs from Search(B, Search(A, d))", ow.String()+" vs "+want.String())
+				}
+				r.addSearch("pipe-targeted", whole, d, "exact")
+			}
+		}
+	}
 	for i := 0; i < r.n(1200, 20000); i++ {
 		doc := g.rootDoc()
 		a := g.expr(0, 3, hAny, doc)
